@@ -143,9 +143,12 @@ PROPS = {
         "claim": {
             "text": ENGINE_TXT + "C07: all-or-nothing for stops-units for ARBITRARY exact checks; the rollback pass "
                     "always completes. Units of units (bookkeeping state machine NR.Coll): rejected operations of the "
-                    "sub-alphabet leave the collections unchanged as sets; the general statement is FALSE: "
-                    "counterexample theorem for solutionPlanUnitsUnitImpl.UnPlan (continues after a rejected member, "
-                    "returns true). Decided on the real code by snapshot comparison before/after every rejected call "
+                    "sub-alphabet leave the collections unchanged as sets; group moves AND group un-plans roll back last-in-"
+                    "first-out and the rollback always goes through, for every model, state and member list (NR.Group, "
+                    "C07G; counterexample theorem for a rollback in execution order). The un-plan of a plan-all unit as "
+                    "GIVEN went on after a rejected member and returned true (counterexample theorem kept on "
+                    "Coll.unplanUnitsGiven); repaired in /repo (E16), the model follows the repaired code. What stays "
+                    "false: UnPlan on a MEMBER tears its group (E2, listed). Decided on the real code by snapshot comparison before/after every rejected call "
                     "in random histories, with and without an optimistic user constraint (rollback branches run "
                     "thousands of times). Repaired: SolutionVehicle.Unplan reported success after restoring.",
             "note": TB_COMMON + " Order inside collections and inside an unplanned unit's stop list is not part of "
@@ -248,13 +251,16 @@ PROPS = {
                     "Found and repaired: E5 (shared random source), E19 (map-ordered filing of initial units), E18 "
                     "(collector lag). Listed: E25 (as shipped, the collector's copy and the solver's restart copy draw "
                     "from the same best solution's random source in an order decided by the scheduler). Fact theorems "
-                    "(regenerated go-closure call table): the helper goroutines of a run call nothing that draws.",
+                    "(regenerated go-closure call table): the helper goroutines of a run call nothing that draws; every "
+                    "place where the iteration order of a Go map could reach a result (regenerated list of map ranges in "
+                    "library and factory) is on a reviewed list (MapOrderFacts); every Maximum answers with a uniform hint "
+                    "per regime (CheckFacts).",
             "note": TB_COMMON + " math/rand is an abstract stream; 'any machine load' is approximated by injected delays.",
             "technique": "Lean 4 proof (stream-splitting theorem + counterexample) + repetition differential under schedule perturbation",
             "design_ref": "DESIGN.md §5 C12",
         },
         "lean_props": ["C12"],
-        "facts": ["ShapeFacts", "CheckFacts"],
+        "facts": ["ShapeFacts", "CheckFacts", "MapOrderFacts"],
         "streams": [{"name": "repro", "corpus": True, "model": False}],
     },
     "C13": {
@@ -363,13 +369,14 @@ PROPS = {
                     "changes nothing. The hypothesis is exact: when the un-plan of a probed group member is rejected the "
                     "check leaves the group half planned (finding E16, counterexample theorem, replayed on the real "
                     "code). Decided on the real code by snapshot comparison before/after check.SolutionCheck at every "
-                    "verbosity inside random histories, and by re-planning every stops-unit the check reports plannable.",
+                    "verbosity inside random histories, and by re-planning every stops-unit the check reports plannable. Since the repair E39 the check probes a COPY of the solution (fact theorem ShapeFacts.check_probes_a_copy over the regenerated source fact), so never-alters rests on C11; the before/after differential still runs around every check.",
             "note": TB_COMMON + " 'Reports truthfully' is re-checked only for plan units of stops (units of units are "
                     "searched greedily in a random member order, a second search may legitimately fail).",
             "technique": "Lean 4 proof (history independence corollary) + before/after snapshot differential on the real code",
             "design_ref": "DESIGN.md §5 C18",
         },
         "lean_props": ["C18", "C07", "EngineThms"],
+        "facts": ["ShapeFacts"],
         "streams": [HIST, HISTUC],
     },
     "C19": {
